@@ -477,7 +477,7 @@ func (e *Engine) reify(st *State, v Val, t types.Type) T {
 		if !ok {
 			panic("reify: pointer value for non-pointer type " + typeString(t))
 		}
-		if x.Nil.S == "true" {
+		if _, live := st.Heap[x.Obj]; x.Nil.S == "true" || !live {
 			if so == "Dyn" {
 				return T{S: "dyn_nil", So: "Dyn"}
 			}
@@ -545,7 +545,7 @@ func (e *Engine) backingArray(st *State, s *SliceV) T {
 		return bb
 	case *ArrV:
 		es := e.sortOf(bb.Elem)
-		arr := e.fresh("arr", "(Array Int "+es+")")
+		arr := e.baseArray(es)
 		cur := arr
 		for i, el := range bb.Elems {
 			cur = T{S: fmt.Sprintf("(store %s %d %s)", cur.S, i, e.reify(st, el, bb.Elem).S), So: arr.So}
@@ -553,6 +553,20 @@ func (e *Engine) backingArray(st *State, s *SliceV) T {
 		return cur
 	}
 	panic(fmt.Sprintf("backingArray: bad backing %T", b))
+}
+
+// baseArray: canonical base for array literals (constant array for scalar sorts, fresh otherwise).
+func (e *Engine) baseArray(es string) T {
+	so := "(Array Int " + es + ")"
+	switch es {
+	case SString:
+		return T{S: fmt.Sprintf("((as const %s) \"\")", so), So: so}
+	case SInt:
+		return T{S: fmt.Sprintf("((as const %s) 0)", so), So: so}
+	case SBool:
+		return T{S: fmt.Sprintf("((as const %s) false)", so), So: so}
+	}
+	return e.fresh("arr", so)
 }
 
 // reflect: SMT term of sortOf(t) -> executor value of Go type t.
